@@ -366,4 +366,11 @@ theorem reach_run {s s' : State} (ls : List Label) (h : Reach s) (hr : run s ls 
     · rename_i s1 hs1
       exact ih (Reach.step h hs1) hr
 
+/-- a non-trivial run used as witness in the property file -/
+def exampleRun : List Label :=
+  [.begin 2, .spawn 0, .publish 0 true, .begin 2, .spawn 1, .publish 1 true,
+   .response 1 1 7, .response 1 1 8, .response 1 9 9, .response 1 2 5,
+   .collect 0, .collect 0, .collect 1, .localReply 0 3, .collect 0, .ret 0,
+   .ctxDone 1, .collExit 1, .ret 1, .response 1 1 6]
+
 end CentrifugeVerif.Survey
